@@ -45,6 +45,56 @@ CLAIMS = {
         "note": "Not claimed: tiff and tiff-json (C++: tiff.cpp, side-by-side-tiff.cpp cannot be parsed by CBMC), including their unbounded stop()/write_() recursion. trash_append's frame walk and the raw life-cycle history unit are bounded stand-ins (K=4 frames; 5 calls) reported under 'bounded'.",
         "design": "5/C16",
     },
+    "C04": {
+        "text": "Three machine-checked pieces on the real code plus a paper composition. (1) video_source_thread under an external loop contract (any number of iterations, a camera failure at any iteration, the stop flag re-havocked every iteration): every committed frame has frame_id = number of frames committed before it, the shape and hardware id/timestamp the camera reported, bytes_of_frame = the write size = header + image bytes rounded up to 8, pixel bytes exactly as the camera wrote them; at most max_frame_count frames; the stop signals are raised exactly once each after the last commit; single-writer discipline at every call site. (2) video_sink_thread with loop contracts on all three real loops: storage is handed a prefix of the region the reader holds, bytes appended == bytes consumed, in stream order, and a normal exit follows an empty read, which by the channel contract (C01.empty-means-drained, enforced on channel_read_map) means everything committed was appended. (3) acquire_init wires each stream's source to its own filter and sink channels. Composition (source commits 0..N-1 then raises the flag; sink drains before exit; stop joins) is the four-line argument of DESIGN sec. 5/C04.",
+        "note": "Channel, HAL, bytes_of_image and vfslice_split are stub contracts in the worker units; their real bodies are enforced in channel.*, hal.*, misc.* units. Assumes sequentially consistent flag accesses and that a delivered frame has the shape last reported (C17). Not decided: the relative order of the filter's and the sink's final flush when averaging is on (a schedule property).",
+        "design": "5/C04",
+    },
+    "C05": {
+        "text": "Producers: the source (source.thread) and the filter (filter.process_data) request and commit only sizes that are multiples of 8 and equal to header + image bytes rounded up, with bytes_of_frame equal to the committed size and the reported shape in the header; bytes_of_type/bytes_of_image are enforced against the table in the property; the rounding lemma and sizeof(VideoFrame) % 8 == 0 are proved for all sizes up to 2^48; frame_iterator_next steps by exactly bytes_of_frame and ends cleanly.",
+        "note": "The chain-walking loops (vfslice_split_at_delay_ms, trash_append) are bounded stand-ins (packets of up to 3-4 frames of arbitrary sizes), reported under 'bounded'. Alignment of slice starts rests on the channel contracts (slices start at 0, at an earlier slice end or at start+consumed) and on the client consuming whole frames (assumed).",
+        "design": "5/C05",
+    },
+    "C06": {
+        "text": "acquire_map_read / acquire_unmap_read are proved to be exactly one channel_read_map / channel_read_unmap on the stream's own monitor reader after argument validation (so the client inherits C01/C02 for its reader and, by the frame clauses of the reader operations, cannot change what the sink reader sees); acquire_stop / acquire_abort, from an arbitrary runtime state satisfying the runtime invariant (including a client that still holds a mapped region), end with the monitor reader unmapped, drained and status Ok, so nothing of the ended acquisition is delivered later and map/unmap keep working; the flush loop is closed by complete unwinding (at most 3 reads, which the channel lemma channel.lemma_three_rounds_drain proves for the real reader operations).",
+        "note": "The monitor reader is abstracted to 0..2 unread intervals in the acquire units (justified by C01: at most two physical intervals). Pixel freshness across threads rests on C01/C02.",
+        "design": "5/C06",
+    },
+    "C07": {
+        "text": "State half, machine-checked: from every runtime state satisfying the invariant, acquire_stop and acquire_abort end with all three workers of every valid stream joined, camera and storage not running, the sink channel accepting writes again, the monitor reader drained and unmapped, and the runtime Armed; abort refuses writes and fires the trigger first. Every path through the three worker bodies clears is_running/is_stopping, stops its device and leaves no reader mapped (source.thread, sink.thread, filter.thread). A ghost 'will this join return' obligation in the thread_join stub proves that no worker is ever joined that nobody has told or will tell to stop (this is what a failed acquire_start used to violate).",
+        "note": "NOT decided: that abort/stop return in finite time. Termination of the joins needs the workers to terminate, which needs scheduler fairness, the liveness half of C03 and the camera's wake-up; only the safety obligations listed are proved. filter.thread and filter.process_data are bounded stand-ins.",
+        "design": "5/C07",
+    },
+    "C08": {
+        "text": "A runtime representation invariant RI (wiring; a device slot is NULL or an open device; a device is Running only on behalf of an unjoined worker; a worker that uses a device has it; no sink/filter worker without a source worker or a stop request; monitor status Ok) is proved to be preserved by acquire_init, configure, start, stop, abort, get_state, execute_trigger, map_read, unmap_read and to be consumed by shutdown, on the real acquire.c composed with the real controller code of source.c/sink.c/filter.c, from an arbitrary state satisfying RI. Devices are heap objects freed by close, so a second close or any later use is a memory-safety failure; shutdown closes every open device exactly once after joining all workers; cameras and storage are started only when Armed; get_state reports Running only while a worker is alive. Induction over the client program gives all programs.",
+        "note": "Known finding (listed in known_findings.json, not repaired): acquire_configure with a different device identifier while the acquisition runs closes the device under its live worker. Heavy units are case-split: one stream arbitrary, the other quiescent. HAL functions are stub contracts with a ghost typestate (real HAL enforced in hal.*); worker bodies are not executed, thread_join applies their proved exit effects; thread creation is assumed to succeed; device_manager (C++) stubbed.",
+        "design": "5/C08",
+    },
+    "C09": {
+        "text": "Source body with camera_get_frame failing at any iteration: nothing is committed in or after that iteration, the stop signals are raised, the camera is stopped exactly once, flags are cleared, exit code 1. Sink body with storage_append failing at any call: no further append, the source is told to stop exactly once, the reader is unmapped with nothing consumed, storage_stop is reached, flags cleared. HAL: a failed frame call stops and demotes the camera, a non-running answer from append becomes Device_Err (hal.*); raw_append reports a failed write within the same call (raw.append). acquire_get_state reports Armed once all flags are clear (acquire.get_state).",
+        "note": "NOT decided: that stop/abort return when the source is asleep on a full ring whose sink has died (liveness).",
+        "design": "5/C09",
+    },
+    "C10": {
+        "text": "accumulate: for every integer sample type an unbounded pixel loop under an external loop contract with a ghost pixel index proves acc[k]' == acc[k] + (float)in[k] bit-precisely in IEEE single, the input untouched, float/unknown types rejected, with a termination variant. process_data (arbitrary pending window state, window size k >= 2): every iterated frame is added exactly once while the output accepts writes, a window's first add lands on zeroed pixels (the filter zeroes the recycled ring memory - fixed defect), emission exactly when k frames were added with inverse norm 1/k, the emitted frame is f32 with the first frame's id and size header+4*pixels rounded to 8, the input slice is fully consumed, a reset drops the pending window and is acknowledged once. video_filter_thread commits a trailing window exactly once and clears its flags.",
+        "note": "normalize: memory safety, frame and termination are proved unbounded; its value clause (x*inv) is a bounded stand-in (4 pixels, cvc5 FPA) because no back end closes an equality of two float multipliers; the 1/k clause of process_data is checked for literal k in {2,3,4}. process_data and the thread body are bounded (at most 3 frames per packet / 3 polling iterations) because goto-instrument --dfcc crashes after --replace-calls. Exactness of the float sum needs k*max|y| <= 2^24 (stated). Not decided: the filter's final flush vs the sink's (schedule).",
+        "design": "5/C10",
+    },
+    "C12": {
+        "text": "C side only: basic_device_describe is the 7-entry table of the property (ids echoed, cameras 0-2, storage 3-6, names terminated; anything else Device_Err with the identifier untouched); basic_device_open constructs exactly the device kind that describe reports for that id, once, and rejects unknown ids and NULL out pointers without constructing anything; basic_device_close dispatches on the same partition; driver_open_device yields the identifier described for the id (hal unit); driver_load returns NULL for an absent library, a missing entry point or a failing init after closing an opened library exactly once and freeing its memory (leak check on), the loader forwarders return errors without calls when the inner driver is gone.",
+        "note": "NOT covered: pattern selection (first match, whole-name, case-insensitive), malformed patterns, NUL-padded names, out-of-range device_manager_get indices and exception barriers live in device.manager.cpp (C++: std::regex, std::vector, exceptions), which CBMC cannot parse. A change there is not detected.",
+        "design": "5/C12",
+    },
+    "C17": {
+        "text": "simcam_set (case split on binning 0,1,2,...,128 and a non-power): non-powers of two rejected with nothing changed; otherwise the shape in effect is the request clamped to [1, 8192/binning], one channel/plane, dense strides, the properties read back are the ones in effect, and both buffers are at least as large as the full-resolution frame the streamer renders (fixed defect: they used to be sized for the binned frame). simcam_get_frame rejects short buffers and stopped cameras without writing, otherwise copies exactly bytes_of_image(shape) bytes (guard byte behind them untouched) and reports the shape. im_fill_rand is proved to write exactly aligned_bytes_of_image bytes (loop contract with variant). The streamer body hands its render calls only the render buffer with a capacity covering the shape passed. The remaining size inequalities (bin2 halvings in int arithmetic, binned copy) are decided by exhaustive native enumeration of all 715,816,960 accepted configurations on the compiled repository functions.",
+        "note": "Assumed, never enforced: bin2 (AVX2 in the product build), im_fill_pattern_* (C++), popcount_u8 (C++), pcg32_random. The streamer unit is bounded (3 iterations, binning in {1,2,8,128}); the size lemma is a native enumeration, not a CBMC proof; both are listed under 'bounded'. Not claimed: pixel values; reconfiguration while running (data race).",
+        "design": "5/C17",
+    },
+    "C18": {
+        "text": "simcam_start resets both frame counters to -1 and spawns one streamer; simcam_get_frame (wait loop under a loop contract, environment may publish frames and stop the camera at every wake-up): a delivered frame has hardware id == frame_id > the id delivered before, which becomes the last delivered id; simcam_execute_trigger sets the trigger under the lock and notifies; simcam_stop clears is_running, passes the lock, then notifies frame_ready and trigger_ready (ghost lock/notify discipline automaton: a frame call or the streamer about to sleep cannot miss it) and joins exactly once. Streamer body: published ids only grow and count every generated frame; with the frame trigger enabled the number of generated frames never exceeds the number of triggers fired.",
+        "note": "NOT decided: that stop returns (join termination) and scheduler fairness. The streamer unit is bounded (3 iterations, 3 spurious wake-ups) and case-split on binning.",
+        "design": "5/C18",
+    },
 }
 
 NOT_YET = "no contract units registered yet in this commit (under construction; see DESIGN.md sec. 11)"
